@@ -287,3 +287,106 @@ def gpyts(l):
 
 def ascii_only(s):
     return all(ord(ch) < 128 for ch in s)
+
+
+# ---------------------------------------------------------------- behavioural "same value codec"
+def ref_class(C, t):
+    """the codec class of the type built directly (no descriptor parsing, no frozen/reversed wrappers at any level)"""
+    while t[0] in ('frozen', 'reversed'):
+        t = t[1]
+    k = t[0]
+    if k == 'simple':
+        return getattr(C, MARSHAL[t[1]])
+    if k == 'list':
+        return C.ListType.apply_parameters([ref_class(C, t[1])])
+    if k == 'set':
+        return C.SetType.apply_parameters([ref_class(C, t[1])])
+    if k == 'map':
+        return C.MapType.apply_parameters([ref_class(C, t[1]), ref_class(C, t[2])])
+    if k == 'tuple':
+        return C.TupleType.apply_parameters([ref_class(C, x) for x in t[1]])
+    if k == 'udt':
+        return C.UserType.make_udt_class(t[1], t[2], tuple(t[3]), tuple(ref_class(C, x) for x in t[4]))
+    if k == 'vector':
+        return C.VectorType.apply_parameters([ref_class(C, t[1]), int(t[2])], None)
+    raise ValueError(k)
+
+
+def sample_value(t, i=0):
+    import datetime, decimal, uuid
+    from cassandra import util
+    while t[0] in ('frozen', 'reversed'):
+        t = t[1]
+    k = t[0]
+    if k == 'simple':
+        return {'ascii': 'abc', 'bigint': 2 ** 40 + 5 + i, 'blob': b'\x00\xff' + bytes([i]), 'boolean': i % 2 == 0, 'counter': 7 + i,
+                'date': datetime.date(2020, 1, 2 + i), 'decimal': decimal.Decimal('1.50'), 'double': 1.25 + i,
+                'duration': util.Duration(1, 2, 3 + i), 'float': 0.5 + i, 'inet': '10.0.0.%d' % (1 + i), 'int': 100000 + i,
+                'smallint': 300 + i, 'text': 'txt%d' % i, 'time': datetime.time(1, 2, 3 + i),
+                'timestamp': datetime.datetime(2020, 1, 2, 3, 4, 5 + i), 'timeuuid': uuid.UUID('e23f1e02-8f1c-11ee-b9d1-0242ac12000%d' % i),
+                'tinyint': 5 + i, 'uuid': uuid.UUID(int=5 + i), 'varint': 10 ** 20 + i}[t[1]]
+    if k in ('list', 'set'):
+        return [sample_value(t[1], 0), sample_value(t[1], 1)]
+    if k == 'map':
+        return util.OrderedMap([(sample_value(t[1], 0), sample_value(t[2], 0)), (sample_value(t[1], 1), sample_value(t[2], 1))])
+    if k == 'tuple':
+        return tuple(sample_value(x, i) for x in t[1])
+    if k == 'udt':
+        return tuple(sample_value(x, i) for x in t[4])
+    if k == 'vector':
+        return [sample_value(t[1], j % 2) for j in range(int(t[2]))]
+    raise ValueError(k)
+
+
+def _canon_result(r):
+    return (r[0], r[1] if isinstance(r[1], bytes) else repr(r[1]))
+
+
+def codec_behaviour(C, c, t, versions=(1, 2, 3, 4, 5)):
+    """the parsed class c must serialise and deserialise exactly like the directly built codec class of the type, at every
+    native protocol version.  Returns list of (op, version, parsed-result, reference-result)."""
+    ref = ref_class(C, t)
+    out = []
+    try:
+        v = sample_value(t)
+    except Exception:
+        return out
+    for pv in versions:
+        a, b = _canon_result(call(c.to_binary, v, pv)), _canon_result(call(ref.to_binary, v, pv))
+        if a != b:
+            out.append(('serialize', pv, a, b))
+        if b[0] == 'ok':
+            da, db = _canon_result(call(c.from_binary, b[1], pv)), _canon_result(call(ref.from_binary, b[1], pv))
+            if da != db:
+                out.append(('deserialize', pv, da, db))
+    return out
+
+
+def wrapper_routes(C):
+    """protocol version that FrozenType / ReversedType hand to their subtype, observed with a recording subtype"""
+    rec = {}
+
+    class _Spy(C._CassandraType):          # leading underscore: not registered
+        typename = 'spy'
+
+        @classmethod
+        def from_binary(cls, byts, protocol_version):
+            rec['des'] = protocol_version
+
+        @classmethod
+        def to_binary(cls, val, protocol_version):
+            rec['ser'] = protocol_version
+            return b'x'
+
+        @classmethod
+        def serial_size(cls):
+            return 17
+    out = []
+    for W in (C.FrozenType, C.ReversedType):
+        w = W.apply_parameters([_Spy])
+        for pv in range(1, 7):
+            rec.clear()
+            w.serialize(1, pv)
+            w.deserialize(b'x', pv)
+            out.append((W.__name__, pv, rec.get('ser'), rec.get('des'), w.serial_size() == 17))
+    return out
